@@ -356,6 +356,25 @@ func c13Worker(c *core.Collector, x *Ctx) {
 		}
 	}
 	c.Count("grid_size", int64(len(grid)))
+	// long-lived connection first (batch 0): commands issued right where the platform serial wraps (65536 frames written before),
+	// answered by the terminal, which then goes away — every call must still return (the scenario machinery of C12 is reused;
+	// here only "did every call return" is judged)
+	if x.Batch == 0 {
+		svc.YieldLevel.Store(0)
+		sc := c12Scenario{Script: "inorder", Terms: 1, Callers: 12, TimeoutMs: 1000, Base: 1900000, Traffic: false, PreRoll: 65530}
+		viol, incon, _, calls := c12Run(srv, sc, core.NewRand(c.Seed, "c13wrap", 0))
+		svc.YieldLevel.Store(1)
+		c.Evals(int64(len(calls)))
+		c.Count("calls_across_the_serial_wrap", int64(len(calls)))
+		if incon {
+			c.Inconclusive()
+		}
+		for _, v := range viol {
+			if strings.HasPrefix(v[0], "noresult") || strings.HasPrefix(v[0], "stranded") {
+				c.Violate("stranded|SendActiveMessage did not return within timeout + slack|at-the-serial-wrap", v[1], sc)
+			}
+		}
+	}
 	per := c.N(100, 160)
 	r := core.NewRand(c.Seed, "c13", uint64(x.Batch))
 	perm := r.Perm(len(grid))
